@@ -108,6 +108,8 @@ impl AsyncHandle {
         buffer.write_all(self.line_ending).inspect_err(|e| {
             eprint_err(ErrorCode::Write, "writing failed", &e);
         })?;
+        #[cfg(flexi_logger_verif)]
+        crate::verif_hooks::point("sc:before_send", None).ok();
         self.sender.send(buffer).map_err(|_e| io_err("Send"))
     }
 
@@ -194,6 +196,8 @@ impl StateHandle {
                         buffer
                             .write_all(handle.line_ending)
                             .unwrap_or_else(|e| eprint_err(ErrorCode::Write, "writing failed", &e));
+                        #[cfg(flexi_logger_verif)]
+                        crate::verif_hooks::point("sc:formatted", None).ok();
                         handle
                             .am_state
                             .lock()
